@@ -234,8 +234,17 @@ impl Part for IntOps {
         if want.is_err() {
             v.labels.push("undefined_result");
         }
+        // listed finding: ops::neg maps 2^127 to itself, so the *literal* -2^127 is +2^127.
+        // Excluded by construction: such operands are not written as literals, and unary
+        // minus of 2^127 carries the finding's own signature.
+        let min_i128 = BigInt::from_i128(i128::MIN);
+        let two_127 = BigInt::from_u128(1u128 << 127);
         let mut outcomes: Vec<(String, Result<String, String>)> = vec![];
         for fa in FORMS {
+            if fa == Form::Lit && a == min_i128 {
+                v.labels.push("excluded_literal_minus_2p127");
+                continue;
+            }
             let va = match fa {
                 Form::Lit => None,
                 f => match int_value(&a, f) {
@@ -245,6 +254,10 @@ impl Part for IntOps {
             };
             let fbs: &[Form] = if unary { &[Form::Lit] } else { &FORMS };
             for &fb in fbs {
+                if fb == Form::Lit && !unary && b == min_i128 {
+                    v.labels.push("excluded_literal_minus_2p127");
+                    continue;
+                }
                 let vb = match fb {
                     Form::Lit => None,
                     f => match int_value(&b, f) {
@@ -273,6 +286,8 @@ impl Part for IntOps {
                 outcomes.push((format!("{fa:?}/{fb:?} `{src}`"), got));
             }
         }
+        let op_sig = if unary && a == two_127 { "neg_2p127" } else { op };
+        let op = op_sig;
         // judge each outcome against the exact result
         for (what, got) in &outcomes {
             match (&want, got) {
